@@ -196,21 +196,21 @@ def _worker_init(modname, seed, tier):
         _MODULE.worker_init()
 
 
-def _chunk_body(start, specs):
+def _chunk_body(cid, pairs):
     out = []
-    for off, spec in enumerate(specs):
-        idx = start + off
+    for idx, spec in pairs:
         try:
             scen = _MODULE.make_scenario(spec, _SEED, idx)
             res = _MODULE.run_scenario(scen)
             p = res.pack()
+            p['idx'] = idx
             if res.viol or (idx % 997 == 0):
                 p['scenario'] = scen
             if res.viol:
-                p['chunk_start'] = start
+                p['chunk_id'] = cid
             out.append(p)
         except BaseException as e:  # harness failure, never a verdict
-            out.append({'harness_error': '%s: %s\n%s' % (type(e).__name__, e, traceback.format_exc()),
+            out.append({'idx': idx, 'harness_error': '%s: %s\n%s' % (type(e).__name__, e, traceback.format_exc()),
                         'spec': spec})
     return out
 
@@ -218,17 +218,20 @@ def _chunk_body(start, specs):
 def _run_chunk(args):
     """Each chunk runs in a freshly forked child of a worker that never executes a scenario itself, so the process
     history a scenario sees is exactly the scenarios before it in its chunk (chunking is independent of the worker count)."""
-    start, specs, cap = args
-    return start, run_isolated(_chunk_body, start, specs, timeout=cap)
+    cid, pairs, cap = args
+    return cid, run_isolated(_chunk_body, cid, pairs, timeout=cap)
 
 
 class Batch:
-    def __init__(self, module, tier, seed, workers=None, runs=None):
+    def __init__(self, module, tier, seed, workers=None, runs=None, stride=1, dump=None):
         self.m = module
         self.tier = tier
         self.seed = seed
         self.workers = workers or min(16, os.cpu_count() or 1)
         self.runs = runs
+        self.stride = max(1, stride or 1)
+        self.dump = dump
+        self.run_digests = []
         self.t0 = _real_perf()
         self.reach = {}
         self.obs = {}
@@ -257,41 +260,42 @@ class Batch:
         if p['nontrivial']:
             self.nontrivial_sigs.add(p['sig'])
         self._h.update(p['digest'].encode())
+        if self.dump:
+            self.run_digests.append((idx, p['digest'], p['sig'][:60]))
         if 'scenario' in p and not p['viol'] and len(self.samples) < 3:
             self.samples.append(p['scenario'])
         for v in p['viol']:
             g = self.viol_groups.setdefault((v['cls'], v['key']), {'count': 0})
             g['count'] += 1
             if 'scenario' not in g:
-                g.update(scenario=p['scenario'], index=idx, msg=v['msg'], chunk_start=p.get('chunk_start', idx))
+                g.update(scenario=p['scenario'], index=idx, msg=v['msg'], chunk_id=p.get('chunk_id'))
 
     def run(self):
         specs = self.m.plan(self.tier, self.seed)
+        pairs = list(enumerate(specs))[::self.stride]
         if self.runs is not None:
-            specs = specs[:self.runs]
-        n = len(specs)
+            pairs = pairs[:self.runs]
         w = self.workers
         per = getattr(self.m, 'CHUNK', 64)
         cap = getattr(self.m, 'CHUNK_CAP_S', 600)
-        chunks = [(s, specs[s:s + per], cap) for s in range(0, n, per)]
+        self.chunks = [pairs[s:s + per] for s in range(0, len(pairs), per)]
+        jobs = [(cid, ch, cap) for cid, ch in enumerate(self.chunks)]
         modname = self.m.__name__
-        self.specs = specs
-        self.per = per
         if w == 1:
             _worker_init(modname, self.seed, self.tier)
-            for c in chunks:
-                start, out = _run_chunk(c)
-                for off, p in enumerate(out):
-                    self.fold(start + off, p)
+            for j in jobs:
+                cid, out = _run_chunk(j)
+                for p in out:
+                    self.fold(p['idx'], p)
             return
         ctx = multiprocessing.get_context('fork')
         deadline = getattr(self.m, 'BATCH_CAP_S', {'quick': 900, 'thorough': 6 * 3600})[self.tier]
         with ProcessPoolExecutor(max_workers=w, mp_context=ctx, initializer=_worker_init,
                                  initargs=(modname, self.seed, self.tier)) as ex:
             try:
-                for start, out in ex.map(_run_chunk, chunks, timeout=deadline):
-                    for off, p in enumerate(out):
-                        self.fold(start + off, p)
+                for cid, out in ex.map(_run_chunk, jobs, timeout=deadline):
+                    for p in out:
+                        self.fold(p['idx'], p)
             except Exception as e:
                 for p in list(getattr(ex, '_processes', {}).values()):
                     try:
@@ -462,6 +466,16 @@ def write_evidence(module, batch, tier, seed, n_viol, known_lines, extra=None):
         'repo_tree': tree_identity(),
         'repo_path': REPO,
     }
+    rep = os.path.join(VERIF, 'selftest', 'determinism_report.json')
+    if os.path.exists(rep):
+        try:
+            with open(rep) as f:
+                d = json.load(f)
+            cov['determinism_selftest'] = {'run_pairs_compared': d.get('pairs_compared'), 'configs_differing': d.get('configs_differing'),
+                                           'this_property': {k: v for k, v in d.get('by_prop_seed', {}).items() if k.startswith(module.ID + ':')},
+                                           'how': 'selftest/determinism.py: same seed twice, PYTHONHASHSEED 0/1/random in fresh interpreters, 1/4/16 workers; per-run event-log digests diffed'}
+        except Exception:
+            pass
     if extra:
         cov.update(extra)
     ev = {
@@ -485,16 +499,16 @@ def write_evidence(module, batch, tier, seed, n_viol, known_lines, extra=None):
 # --------------------------------------------------------------------------
 # the check driver
 
-def run_check(module, tier, seed, workers=None, runs=None, verify_replay=True):
+def run_check(module, tier, seed, workers=None, runs=None, verify_replay=True, stride=1, dump=None):
     try:
-        return _run_check(module, tier, seed, workers, runs, verify_replay)
+        return _run_check(module, tier, seed, workers, runs, verify_replay, stride, dump)
     finally:
         if hasattr(module, 'parent_fini'):
             module.parent_fini()
 
 
-def _run_check(module, tier, seed, workers=None, runs=None, verify_replay=True):
-    batch = Batch(module, tier, seed, workers=workers, runs=runs)
+def _run_check(module, tier, seed, workers=None, runs=None, verify_replay=True, stride=1, dump=None):
+    batch = Batch(module, tier, seed, workers=workers, runs=runs, stride=stride, dump=dump)
     print('check %s tier=%s seed=%d repo=%s workers=%d' % (module.ID, tier, seed, REPO, batch.workers))
     sys.stdout.flush()
     if hasattr(module, 'parent_init'):
@@ -512,6 +526,9 @@ def _run_check(module, tier, seed, workers=None, runs=None, verify_replay=True):
         write_evidence(module, batch, tier, seed, 0, [], {'harness_errors': len(batch.harness_errors)})
         return 2
 
+    if dump:
+        with open(dump, 'w') as f:
+            json.dump({'digest': batch.digest(), 'runs': batch.run_digests}, f)
     findings = load_findings(module.ID)
     known_lines = []
     new = []
@@ -537,8 +554,8 @@ def _run_check(module, tier, seed, workers=None, runs=None, verify_replay=True):
         if not same_violation(first['viol'], cls, key):
             # not reproducible from a pristine process: the outcome depends on what ran earlier in the same process.
             # Rebuild that history (the scenarios of the same chunk before it) - deterministic from (seed, index).
-            cs = g.get('chunk_start', g['index'])
-            history = [module.make_scenario(batch.specs[i], seed, i) for i in range(cs, g['index'])]
+            chunk = batch.chunks[g['chunk_id']] if g.get('chunk_id') is not None else []
+            history = [module.make_scenario(sp, seed, i) for i, sp in chunk if i < g['index']]
             again = evaluate(module, scen, history)
             if not same_violation(again['viol'], cls, key):
                 print('HARNESS-ERROR violation cls=%s key=%s at index %d reproduces neither alone nor after its chunk history'
